@@ -44,11 +44,16 @@ def check(ctx):
              "that moves children to another node re-points their parent link, before the source list is emptied")
     ctx.rule("C20-F", "the coefficients of :nth-child(an+b) are signed: every coefficient that parse_nth_child_args reads from "
              "digits is the parsed number multiplied by the value of the sign parsed immediately before those digits")
+    ctx.rule("C20-G", "the components of a selector stay in the order they were written: the only order-changing operations on a "
+             "sequence of SelectorComponent are the reviewed ones of parse_selector (one reverse of the whole list, the pop of a "
+             "trailing descendant combinator) — a sort or a partial reverse moves a test across a combinator")
     ctx.facts.upvar_depth = 8  # captured selector payloads are compared in full
     try:
         for rid, fn in (("C20-A", rule_a), ("C20-B", rule_b), ("C20-C", rule_c), ("C20-D", rule_d), ("C20-E", rule_e),
                         ("C20-F", rule_f)):
             ctx.guard(rid, fn)
+        from . import C03
+        ctx.guard("C20-G", C03.rule_g, ("SelectorComponent",), "C20-G")
     finally:
         ctx.facts.upvar_depth = 2
 
